@@ -68,3 +68,94 @@ def h_verdict(e: int, v: int, h: int, u: int) -> bool:
     if row:
         ok = ok and [Fig.table[i] for i, _ in fig_markers(row[0])] == [e + v, h, u]
     return fin(ok, exp == "warn")
+
+
+# ----------------------------------------------------------------------------------------------- the summary of a REAL report (with / without a comparison report), both formats
+# The percentages shown in the table and the verdict sentence must both be those of the CURRENT report, however often they were asked for before and
+# whatever report it is compared with. Codebases are chosen by the solver from a pool and everything then runs concretely (untraced): the formatting code
+# renders integers into text, which CrossHair can only do on concrete values.
+from vlib.hx import untraced  # noqa: E402
+
+BASES = [
+    {"app.py": [12] * 14, "pkg/legacy.py": [40]},                       # first file dominates; hard share just under 20 %
+    {"a.py": [10, 12], "b.py": [15]},                                   # all easy
+    {"a.py": [70, 10], "d/b.py": [20, 20, 35]},                         # unmaintainable present
+    {"a.py": [40, 35], "b.py": [10]},                                   # hard-to-maintain > 20 %
+    {"big.py": [25] * 20, "x/y.py": [31], "z.py": [16, 16]},            # verbose-heavy, hard share tiny
+]
+
+
+def _mk_report(bi):
+    from codelimit.common.Codebase import Codebase
+    from codelimit.common.Location import Location
+    from codelimit.common.Measurement import Measurement
+    from codelimit.common.SourceFileEntry import SourceFileEntry
+    cb = Codebase("/r")
+    for p, vals in BASES[bi].items():
+        ms = [Measurement(f"f{j}", Location(1 + 100 * j, 1), Location(1 + 100 * j + v, 2), v) for j, v in enumerate(vals)]
+        cb.add_file(SourceFileEntry(p, "k-" + p, "Python", sum(vals), ms))
+    cb.aggregate()
+    return Report(cb)
+
+
+def _own_percentages(bi):
+    """expected figures: the repository's percentage function on a FRESH report object of the same codebase, first call (the function itself is the subject of the SMT part)"""
+    return tuple(_mk_report(bi).quality_profile_percentage())
+
+
+@untraced
+def _summary_real(ci, pi, fmt, warm):
+    import re
+    exp = _own_percentages(ci)
+    e, v, h, u = exp
+    rep = _mk_report(ci)
+    prev = _mk_report(pi) if pi >= 0 else None
+    for _ in range(warm):                      # figures were already asked for (e.g. by an earlier command in the same process)
+        rep.quality_profile_percentage()
+    con = RecConsole()
+    if fmt == 0:
+        ft.print_report(con, rep, prev)
+    else:
+        fm.print_report(con, rep, prev)
+    texts = con.texts()
+    bad = []
+    kind = "stop" if u > 0 else ("warn" if h > 20 else "ok")
+    if _verdict(texts) != [kind]:
+        bad.append("verdict-kind")
+    line = [t for t in texts if "refactoring" in t]
+    want = u if kind == "stop" else h if kind == "warn" else e + v
+    if len(line) != 1 or re.findall(r"(-?\d+)%", line[0]) != [str(want)]:
+        bad.append("verdict-figure")
+    if fmt == 0:
+        tbl = [x for objs, _ in con.items for x in objs if hasattr(x, "columns") and type(x).__name__ == "SummaryTable"]
+        cells = [col._cells[0].plain for col in tbl[0].columns] if len(tbl) == 1 else None
+        if cells != [f"{e + v}%", f"{h}%", f"{u}%"]:
+            bad.append("table-figures")
+    else:
+        rows = [t for t in texts if re.fullmatch(r"\| -?\d+% \| -?\d+% \| -?\d+% \|", t.strip())]
+        if rows != [f"| {e + v}% | {h}% | {u}% |"]:
+            bad.append("table-figures")
+    if tuple(rep.quality_profile_percentage()) != exp:
+        bad.append("figures-change-when-asked-again")
+    return bad
+
+
+def _sel(x, lo, hi):
+    for k in range(lo, hi + 1):
+        if x == k:
+            return k
+    return lo
+
+
+def h_summary_real(ci: int, pi: int, fmt: int, warm: int) -> bool:
+    """
+    pre: 0 <= ci < len(BASES) and -1 <= pi < len(BASES) and 0 <= fmt <= 1 and 0 <= warm <= 2
+    post: _
+    """
+    bad = _summary_real(_sel(ci, 0, len(BASES) - 1), _sel(pi, -1, len(BASES) - 1), _sel(fmt, 0, 1), _sel(warm, 0, 2))
+    return fin(bad == [], pi >= 0 and warm == 1)
+
+
+def real_h_summary_real(ci, pi, fmt, warm):
+    bad = _summary_real.__wrapped__(ci, pi, fmt, warm)
+    return {"reproduced": bool(bad), "sig": "summary-of-a-real-report:" + "+".join(bad), "detail": f"codebase {BASES[ci]} compared with {BASES[pi] if pi >= 0 else None}, format {'text' if fmt == 0 else 'markdown'}, percentages asked {warm} time(s) before: {bad}"}
